@@ -7,6 +7,7 @@ def sh(*a): return subprocess.run(a, cwd=V, capture_output=True, text=True).stdo
 blocks = {
  'table': sh('python3', 'meta/design_table.py'),
  'seeded': sh('python3', 'meta/seeded_table.py'),
+ 'negctl': sh('python3', 'meta/negctl_table.py'),
 }
 kf = json.load(open(os.path.join(V, 'known_findings.json')))
 lines = ["| property | commit | what failed (replay) |", "|---|---|---|"]
